@@ -23,7 +23,7 @@ func drivers(quick bool) []conc.Driver {
 		{Chunk: 1, Concurrent: true, Cycles: []int{3}},
 		{Chunk: 2, Concurrent: true, Cycles: []int{4}},
 		{Chunk: 2, Concurrent: true, Cycles: []int{5}},
-		{Chunk: 2, Concurrent: true, Cycles: []int{6}}, // the buffer of the first run comes back and is filled again while later runs are written
+		{Chunk: 2, Concurrent: true, Cycles: []int{6}},            // the buffer of the first run comes back and is filled again while later runs are written
 		{Chunk: 2, Concurrent: true, Cycles: []int{5}, After: 16}, // another, larger sorter lived and was cleaned up before
 		{Chunk: 1, Concurrent: true, Cycles: []int{2, 2}},         // the sorter is used again after Clear
 		{Chunk: 2, Concurrent: true, Cycles: []int{3, 3}},
@@ -31,6 +31,10 @@ func drivers(quick bool) []conc.Driver {
 		{Chunk: 1, Concurrent: true, Cycles: []int{0, 2}},                  // an empty use first
 		{Chunk: 2, Concurrent: true, Cycles: []int{1, 3}, AutoClear: true}, // the drain itself clears the sorter
 		{Chunk: 1, Concurrent: true, Cycles: []int{2, 2}, AutoClear: true},
+		{Chunk: 1, Concurrent: true, Cycles: []int{3, 2}, Abandon: true}, // a load given up half way (Clear without Finalise), then an ordinary one
+		{Chunk: 2, Concurrent: true, Cycles: []int{3, 3}, Abandon: true},
+		{Chunk: 2, Concurrent: true, Cycles: []int{5}, Struct: true}, // struct elements with zero-valued fields
+		{Chunk: 1, Concurrent: true, Cycles: []int{3}, Struct: true},
 	}
 	if !quick {
 		scs = append(scs,
